@@ -20,6 +20,7 @@ import XotModel.Driver.Fclone
 import XotModel.Driver.Repair
 import XotModel.Driver.Lex
 import XotModel.Driver.SerTokens
+import XotModel.Driver.Accepted
 import XotModel.Driver.Fprefix
 import XotModel.Driver.Fanyorder
 import XotModel.Driver.Fidx
@@ -38,6 +39,7 @@ def dispatch (st : DState) (line : String) : DState × String :=
   | "scope" :: rest => (st, (handleScope st rest).getD "bad-request")
   | "html" :: rest => (st, (handleHtml st rest).getD "bad-request")
   | "build" :: rest => (st, (handleBuild st rest).getD "bad-request")
+  | "accguard" :: rest => (st, (handleAccGuard st rest).getD "bad-request")
   | "repair" :: rest => (st, (handleRepair st rest).getD "bad-request")
   | "lex" :: rest => (st, (handleLex rest).getD "bad-request")
   | "representable" :: rest => (st, (handleRepresentable st rest).getD "bad-request")
